@@ -160,3 +160,47 @@ func HarnessStoreFailure() {
 		vAssert(rerr == nil && bytesEq(got, body), "c01."+backend+".truncated-entry-served")
 	}
 }
+
+// interleavedGet: a second thread's operation (overwrite / delete of the same key) may run,
+// atomically, at ANY lock or file-system boundary inside the reader's Get: whatever Get then
+// returns must still be one version's body with that version's metadata.
+func interleavedGet(c cacheUnderTest, backend string) {
+	vClockFreeze(true)
+	now := time.Now()
+	L := vParam("body", 2)
+	v1 := symBytes(symRange(1, L))
+	v2 := symBytes(symRange(1, L))
+	k := vKeys[0]
+	_, err := c.Cache(k, &symReader{data: v1, failAt: -1}, now.Add(time.Hour), vmeta{Ver: 1})
+	vAssert(err == nil, "c01."+backend+".store-failed")
+	kind := symChoice(2)
+	vInterpose(func() {
+		if kind == 0 {
+			c.Cache(k, &symReader{data: v2, failAt: -1}, now.Add(time.Hour), vmeta{Ver: 2})
+		} else {
+			c.Delete(k)
+		}
+	}, 1)
+	h, gerr := c.Get(k)
+	vInterpose(nil, 0)
+	if vInterposed() > 0 {
+		vReach("writer-ran-inside-get")
+	}
+	if gerr != nil {
+		vReach("get-failed")
+		return
+	}
+	got, rerr := readAll(h.Data)
+	vReach("get-succeeded")
+	switch h.Metadata.Object.Ver {
+	case 1:
+		vAssert(rerr == nil && bytesEq(got, v1) && h.Metadata.Size == int64(len(v1)), "c01."+backend+".get-pairs-metadata-with-another-versions-body")
+	case 2:
+		vAssert(rerr == nil && bytesEq(got, v2) && h.Metadata.Size == int64(len(v2)), "c01."+backend+".get-pairs-metadata-with-another-versions-body")
+	default:
+		vAssert(false, "c01."+backend+".body-of-another-resource")
+	}
+}
+
+func HarnessInterleavedGetMem()  { interleavedGet(newMem(symRange(1, 2), 1<<30), "mem") }
+func HarnessInterleavedGetFile() { interleavedGet(newFile(symRange(1, 2), 1<<30), "file") }
